@@ -41,13 +41,14 @@ type pendingOp struct {
 	ver    int
 	resume chan struct{}
 	// put
-	chunks  [][]byte
-	next    int  // next chunk to deliver
-	written int  // bytes delivered so far
-	copied  bool // whether the upload is valid as a whole
-	dedup   bool
-	hasTick bool
-	failErr error
+	chunks   [][]byte
+	next     int  // next chunk to deliver
+	written  int  // bytes delivered so far
+	copied   bool // whether the upload is valid as a whole
+	dedup    bool
+	hasTick  bool
+	failErr  error
+	ioFailed bool // the device refused a write during this upload's copy
 	// what had happened when the upload started
 	corruptionsAtStart int
 	discardsAtStart    float64
@@ -252,6 +253,7 @@ func (r *Runner) startPut(id, obj, ver int, chunking, fault string) {
 		}
 	}
 	r.pending[id] = op
+	r.ioFired = false
 	go func() {
 		err := r.st.BA.Put(context.Background(), d, b)
 		reply := "ok"
